@@ -34,7 +34,9 @@ FLOORS = {
 def shards(tier, seed):
     n_img = 200 if tier == "quick" else 2000
     k = 4 if tier == "quick" else 16
-    return [{"shard": i, "nshards": k, "n_img": n_img} for i in range(k)]
+    out = [{"shard": i, "nshards": k, "n_img": n_img} for i in range(k)]
+    out.append({"shard": k, "repo_tests": ["tests/unit/test_grid.py", "tests/unit/test_fv.py", "tests/unit/test_variational_wasserstein_distance.py", "tests/unit/test_emd.py"]})
+    return out
 
 
 def judge_grid(R, grid, source="direct"):
@@ -160,6 +162,11 @@ def run_shard(spec, R):
 
     src = ["direct"]
     attach(R, src)
+    if spec.get("repo_tests"):
+        from vf.ambient import run_repo_tests
+
+        src[0] = "repo-tests"
+        return run_repo_tests(R, spec["repo_tests"])
     rng = rng_for(spec["seed"], "C07", spec["shard"])
     shapes = all_shapes()
     for i, shape in enumerate(shapes):
